@@ -593,7 +593,13 @@ func loadFindings() []finding {
 
 func runOneWitness(b *builder, bin, wid string) (pass bool, detail string, inconclusive bool) {
 	env := append(os.Environ(), "VERIF_SCRATCH="+b.work)
-	if wid == "D18" || wid == "D19" {
+	needsTool := false
+	for _, f := range loadFindings() {
+		if f.ID == wid && f.Property == "C20" {
+			needsTool = true
+		}
+	}
+	if needsTool {
 		pt, err := b.plenctag()
 		if err != nil {
 			return false, err.Error(), true
